@@ -27,6 +27,9 @@ def run(ctx):
     impl.chunked(ctx)
     impl.malformed(ctx)
     impl.coalesced(ctx)
+    scases = impl.splitter(ctx)
+    if model_ok:
+        correspond_split(ctx, scases)
     if not ok:
         found = len(ctx.failures) > failures_before
         ctx.fail("proof-broken", "the Coq development for C13 no longer builds against the regenerated "
@@ -80,3 +83,65 @@ Eval vm_compute in map (fun c => let '(oa, ob) := negotiate (fst c) (snd c) in (
                          has_input=False)
     ctx.extra["correspondence_cases"] = len(cases)
     ctx.extra["correspondence_disagreements"] = nbad
+
+
+def correspond_split(ctx, scases):
+    """the Coq splitter model (lib/NegSplit.v) on the same (stream, chunking, k) as the real dataReceived"""
+    ok2, _ = ctx.coq_build(["lib/NegSplit.vo"]) if not ctx.build_ok else (True, "")
+    if not ok2:
+        return
+    # the model is evaluated on a budgeted subset (literals of several thousand bytes are slow to parse):
+    # per stream the whole-stream chunking and the chunkings with a boundary near the limit, total bytes capped
+    budget = 400000 if ctx.tier == "quick" else 6000000
+    chosen, spent, per = [], 0, {}
+    for c in scases:
+        key = (bytes(c[0]), c[2])
+        n = per.get(key, 0)
+        if n >= 3 or spent + len(c[0]) > budget:
+            continue
+        if n >= 1 and len(c[1]) > 40:
+            continue
+        per[key] = n + 1
+        spent += len(c[0])
+        chosen.append(c)
+    scases = chosen
+    shard = 120
+    nbad = 0
+    for si in range(0, len(scases), shard):
+        part = scases[si:si + shard]
+        lines = []
+        for (stream, cs, k, obs, buflen) in part:
+            chunks, pos = [], 0
+            for n in cs:
+                chunks.append("[" + ";".join(str(b) for b in stream[pos:pos + n]) + "]")
+                pos += n
+            lines.append("(%d%%nat, [%s])" % (k, "; ".join(chunks)))
+        body = ("Local Open Scope Z_scope.\n"
+                "Definition okh (h : list Z) : bool := match h with 66 :: 65 :: 68 :: _ => false | _ => true end.\n"
+                "Definition code (r : nst * list (list Z) * list Z) : (Z * Z * list Z * list Z) :=\n"
+                "  let '(s, bs, p) := r in\n"
+                "  (match s with NWait b _ => 0 | NPass => 1 | NDead => 2 end,\n"
+                "   match s with NWait b _ => Z.of_nat (List.length b) | _ => 0 end,\n"
+                "   map (fun b => Z.of_nat (List.length b)) bs ++ flat_map (fun b => firstn 3 b) bs, match s with NDead => [] | _ => p end).\n"
+                "Definition cases : list (nat * list (list Z)) := [\n%s].\n"
+                "Eval vm_compute in map (fun c => code (nfeed_all okh (NWait [] (fst c)) (snd c))) cases.\n" % ";\n".join(lines))
+        try:
+            (vals,) = ctx.coq_eval("C13_split_%d" % (si // shard), body,
+                                   requires=["Verif.lib.PyLite", "Verif.gen.NegotiateGen", "Verif.lib.NegSplit"])
+        except common.CoqEvalError as e:
+            ctx.fail("correspondence-broken", "the splitter model could not be evaluated: " + str(e)[-1500:], has_input=False)
+            return
+        for (stream, cs, k, obs, buflen), (mstate, mbuf, mblocks, mpassed) in zip(part, vals):
+            blocks, dead, passed, switched = obs
+            istate = 2 if dead else 1 if switched else 0
+            iblocks = [len(b) for b in blocks] + [x for b in blocks for x in b[:3]]
+            ctx.traces += 1
+            if (istate, iblocks, passed) != (mstate, mblocks, mpassed) or (istate == 0 and buflen != mbuf):
+                nbad += 1
+                if nbad <= 3:
+                    ctx.fail("correspondence/splitter", "splitter model and Negotiation.dataReceived disagree: k=%d chunks=%r stream[:40]=%r len=%d: "
+                             "impl state %d blocks %r passed %d buf %d; model state %d blocks %r passed %d buf %d"
+                             % (k, cs[:20], list(stream[:40]), len(stream), istate, iblocks[:8], len(passed), buflen, mstate, mblocks[:8], len(mpassed), mbuf),
+                             replay=dict(stream=list(stream), chunks=cs, k=k), has_input=False)
+    ctx.extra["splitter_cases"] = len(scases)
+    ctx.extra["splitter_disagreements"] = nbad
